@@ -37,6 +37,12 @@ pub enum ShaderRef {
     /// Deeply nested types (kind 0, 2) or deep call graphs (kind 1): many scheduling points
     /// inside the recursive walkers of the generator.
     Deep { shape: u8, depth: u32, variant: u32 },
+    /// The generated shader `seed` (scale 1) plus one constant that differs per `variant`:
+    /// different sources and outputs, identical cost (used to make concurrent calls finish at the
+    /// same instant in stress processes).
+    Twin { seed: u64, variant: u32 },
+    /// Bulk: `structs` storage structs with `members` vec4 members each (megabytes of bindings).
+    Bulk { structs: u32, members: u32 },
     /// Literal source (used by minimised replay files).
     Inline { source: String },
 }
@@ -49,6 +55,10 @@ impl ShaderRef {
             ShaderRef::Gen { seed, scale } => gen_shader(*seed, *scale),
             ShaderRef::Bad { which } => bad_shader(*which),
             ShaderRef::Deep { shape, depth, variant } => deep_shader(*shape, *depth, *variant),
+            ShaderRef::Bulk { structs, members } => bulk_shader(*structs, *members),
+            ShaderRef::Twin { seed, variant } => {
+                format!("{}\nconst TWIN_ID: u32 = {variant}u;\n", gen_shader(*seed, 1))
+            }
             ShaderRef::Inline { source } => source.clone(),
         }
     }
@@ -59,6 +69,8 @@ impl ShaderRef {
             ShaderRef::Gen { seed, scale } => format!("gen:{seed:x}/{scale}"),
             ShaderRef::Bad { which } => format!("bad:{which}"),
             ShaderRef::Deep { shape, depth, variant } => format!("deep:{shape}/{depth}/{variant}"),
+            ShaderRef::Bulk { structs, members } => format!("bulk:{structs}x{members}"),
+            ShaderRef::Twin { seed, variant } => format!("twin:{seed:x}/{variant}"),
             ShaderRef::Inline { source } => format!("inline:{}B", source.len()),
         }
     }
@@ -597,6 +609,23 @@ pub fn gen_shader(seed: u64, scale: u32) -> String {
     if crlf {
         out = out.replace('\n', "\r\n");
     }
+    out
+}
+
+pub fn bulk_shader(structs: u32, members: u32) -> String {
+    let mut out = String::new();
+    for s in 0..structs {
+        let _ = writeln!(out, "struct Bk{s} {{");
+        for m in 0..members {
+            let _ = writeln!(out, "    member_{m}: vec4<f32>,");
+        }
+        let _ = writeln!(out, "}}\n@group({}) @binding({}) var<storage, read> bk{s}: Bk{s};", s / 16, s % 16);
+    }
+    let _ = writeln!(out, "@compute @workgroup_size(64)\nfn cs_main() {{\n    var t = 0.0;");
+    for s in 0..structs {
+        let _ = writeln!(out, "    t = t + bk{s}.member_0.x;");
+    }
+    let _ = writeln!(out, "}}");
     out
 }
 
